@@ -1,1 +1,671 @@
-fn main() {}
+//! X01 driver: the REAL `libp2p_stream::Behaviour`, its REAL connection handlers, `Control` and `IncomingStreams`.
+//! The driver plays the Swarm (dials, connections, substream negotiation results) and the application
+//! (accept / drop / poll IncomingStreams, open_stream futures), everything polled by hand.
+//!
+//!   drv-xstream exhaustive <len> <out> | random <seed> <runs> <out> | replay <file> <out>
+//!
+//! Remote peers 1..2, protocols 0 = /a, 1 = /b, 2 = /c (never registered). Connections are numbered 1, 2, .. in order
+//! of establishment. Every negotiated stream carries a serial number (its first byte), so that streams are identified
+//! wherever they come out.
+//!
+//! Schedule {"ops":[op..]}:
+//!   {"a":"accept","p"} {"a":"dropinc","p"} {"a":"recv","p"}              Control::accept / drop IncomingStreams / ONE poll_next
+//!   {"a":"open","peer","p"} {"a":"cancel","i"}                         a new open_stream future (polled at once) / drop it
+//!   {"a":"pollbeh"}                                                    ONE Behaviour::poll; a Dial is checked against its PeerCondition as Swarm::dial does
+//!   {"a":"dialok","peer"} {"a":"dialfail","peer","k"}                  the oldest pending dial to peer succeeds / fails
+//!          k: transport | denied | noaddr | wrongpeer | aborted | local
+//!   {"a":"inconn","peer"} {"a":"close","c"}                            inbound connection established / connection closed
+//!   {"a":"pollh","c"}                                                  ONE ConnectionHandler::poll of connection c
+//!   {"a":"outok","c"} {"a":"outfail","c","k":"neg|io|timeout"}         answer the oldest outstanding substream request of c
+//!   {"a":"inb","c","p"}                                                an inbound substream for protocol p: listen_protocol, then (if offered) FullyNegotiatedInbound
+//!   {"a":"inb1","c","p"} {"a":"inb2","k"}                              the same in two steps (negotiation takes time)
+//! After every op all unresolved open_stream futures are polled until nothing moves (`res` events).
+//! Every run ends with a drain (behaviour and handlers polled until Pending) and an `end` event.
+use std::{
+    collections::VecDeque,
+    future::Future,
+    pin::Pin,
+    task::Poll,
+};
+
+use futures::{io::AsyncRead, Stream as _};
+use libp2p_core::{multiaddr::Protocol, muxing::SubstreamBox, transport::PortUse, ConnectedPoint, Endpoint, Multiaddr};
+use libp2p_identity::PeerId;
+use libp2p_stream as stream;
+use libp2p_swarm::{
+    behaviour::{ConnectionClosed, ConnectionEstablished, DialFailure, FromSwarm},
+    dial_opts::PeerCondition,
+    handler::{ConnectionEvent, ConnectionHandlerEvent, DialUpgradeError, FullyNegotiatedInbound, FullyNegotiatedOutbound},
+    ConnectionDenied, ConnectionHandler, ConnectionId, DialError, NetworkBehaviour, Stream, StreamProtocol, StreamUpgradeError, THandler, ToSwarm,
+};
+use libp2p_core::upgrade::UpgradeInfo;
+use rand::Rng;
+use vcommon::{exec::Det, guard, json, pipe, Args, Out, Value};
+
+const PROTOS: [&str; 3] = ["/a", "/b", "/c"];
+const NPEER: usize = 2;
+
+type Hdl = THandler<stream::Behaviour>;
+type OpenFut = Pin<Box<dyn Future<Output = Result<Stream, stream::OpenStreamError>>>>;
+
+fn pidx(name: &str) -> i64 {
+    PROTOS.iter().position(|p| *p == name).map(|i| i as i64).unwrap_or(-1)
+}
+
+/// A negotiated stream whose first readable byte is `serial`. `outbound`: the local side was the dialer.
+fn mkstream(det: &Det, proto: &'static str, serial: u8, outbound: bool) -> Stream {
+    let (a, b, _ctl) = pipe::pipe(true);
+    if outbound {
+        let d = multistream_select::dialer_select_proto(SubstreamBox::new(a), vec![proto], multistream_select::Version::V1);
+        let l = multistream_select::listener_select_proto(b, vec![proto]);
+        let mut both = Box::pin(futures::future::join(d, l));
+        let (rd, rl) = det.run_until_stalled(both.as_mut(), 1000).expect("negotiation completes");
+        let (_, io) = rd.expect("dialer");
+        let (_, remote) = rl.expect("listener");
+        finish_remote(det, remote, serial);
+        libp2p_swarm::verif::stream(io)
+    } else {
+        let d = multistream_select::dialer_select_proto(a, vec![proto], multistream_select::Version::V1);
+        let l = multistream_select::listener_select_proto(SubstreamBox::new(b), vec![proto]);
+        let mut both = Box::pin(futures::future::join(d, l));
+        let (rd, rl) = det.run_until_stalled(both.as_mut(), 1000).expect("negotiation completes");
+        let (_, remote) = rd.expect("dialer");
+        let (_, io) = rl.expect("listener");
+        finish_remote(det, remote, serial);
+        libp2p_swarm::verif::stream(io)
+    }
+}
+
+fn finish_remote<T: futures::io::AsyncWrite + Unpin>(det: &Det, mut remote: T, serial: u8) {
+    use futures::io::AsyncWriteExt;
+    {
+        let mut w = Box::pin(async {
+            remote.write_all(&[serial]).await.expect("write serial");
+            remote.flush().await.expect("flush serial");
+        });
+        det.run_until_stalled(w.as_mut(), 100).expect("serial written");
+    }
+    std::mem::forget(remote);
+}
+
+fn read_serial(det: &Det, s: &mut Stream) -> i64 {
+    let mut b = [0u8; 1];
+    let mut cx = det.cx();
+    match Pin::new(s).poll_read(&mut cx, &mut b) {
+        Poll::Ready(Ok(1)) => b[0] as i64,
+        _ => -1,
+    }
+}
+
+struct Conn {
+    id: ConnectionId,
+    peer: usize,
+    handler: Hdl,
+    endpoint: ConnectedPoint,
+    outstanding: VecDeque<&'static str>,
+}
+
+struct OpenSlot {
+    fut: Option<OpenFut>,
+}
+
+struct World {
+    beh: stream::Behaviour,
+    ctl: stream::Control,
+    peers: Vec<PeerId>,
+    conns: Vec<Option<Conn>>, // index c-1
+    dials: Vec<VecDeque<ConnectionId>>, // per peer index (1..=NPEER)
+    incs: [Option<stream::IncomingStreams>; 3],
+    opens: Vec<OpenSlot>,
+    inb_pending: Vec<Option<(usize, usize, bool)>>, // (conn index, proto, accepted)
+    serial: u8,
+    next_cid: usize,
+    det: Det,
+    evs: Vec<Value>,
+    held: Vec<Stream>,
+}
+
+fn addr(peer: usize, c: usize) -> Multiaddr {
+    Multiaddr::empty().with(Protocol::Memory((1000 * peer + c) as u64))
+}
+
+impl World {
+    fn new(peers: &[PeerId]) -> Self {
+        let beh = stream::Behaviour::new();
+        let ctl = beh.new_control();
+        World {
+            beh,
+            ctl,
+            peers: peers.to_vec(),
+            conns: vec![],
+            dials: vec![VecDeque::new(); NPEER + 1],
+            incs: [None, None, None],
+            opens: vec![],
+            inb_pending: vec![],
+            serial: 0,
+            next_cid: 1,
+            det: Det::new(),
+            evs: vec![],
+            held: vec![],
+        }
+    }
+
+    fn peer_of(&self, p: &PeerId) -> i64 {
+        self.peers.iter().position(|x| x == p).map(|i| i as i64).unwrap_or(-1)
+    }
+
+    fn connected(&self, peer: usize) -> usize {
+        self.conns.iter().flatten().filter(|c| c.peer == peer).count()
+    }
+
+    fn live_conns(&self) -> Vec<usize> {
+        (0..self.conns.len()).filter(|i| self.conns[*i].is_some()).collect()
+    }
+
+    fn pick_conn(&self, op: &Value) -> Option<usize> {
+        let live = self.live_conns();
+        if live.is_empty() {
+            return None;
+        }
+        Some(live[op["c"].as_u64().unwrap_or(0) as usize % live.len()])
+    }
+
+    fn establish(&mut self, peer: usize, id: ConnectionId, outbound: bool) {
+        let c = self.conns.len() + 1;
+        let a = addr(peer, c);
+        let local: Multiaddr = Multiaddr::empty().with(Protocol::Memory(1));
+        let (handler, endpoint) = if outbound {
+            (
+                self.beh.handle_established_outbound_connection(id, self.peers[peer], &a, Endpoint::Dialer, PortUse::New).expect("never denied"),
+                ConnectedPoint::Dialer { address: a, role_override: Endpoint::Dialer, port_use: PortUse::New },
+            )
+        } else {
+            (
+                self.beh.handle_established_inbound_connection(id, self.peers[peer], &local, &a).expect("never denied"),
+                ConnectedPoint::Listener { local_addr: local, send_back_addr: a },
+            )
+        };
+        let other = self.connected(peer);
+        self.conns.push(Some(Conn { id, peer, handler, endpoint, outstanding: VecDeque::new() }));
+        let ep = self.conns[c - 1].as_ref().unwrap().endpoint.clone();
+        self.beh.on_swarm_event(FromSwarm::ConnectionEstablished(ConnectionEstablished {
+            peer_id: self.peers[peer],
+            connection_id: id,
+            endpoint: &ep,
+            failed_addresses: &[],
+            other_established: other,
+        }));
+        self.evs.push(json!({"e": "est", "c": c, "peer": peer, "dir": if outbound { "out" } else { "in" }}));
+    }
+
+    fn poll_beh(&mut self) -> bool {
+        let mut cx = self.det.cx();
+        match self.beh.poll(&mut cx) {
+            Poll::Pending => {
+                self.evs.push(json!({"e": "pollbeh", "res": "pending", "peer": 0, "cond": ""}));
+                false
+            }
+            Poll::Ready(ToSwarm::Dial { opts }) => {
+                let peer = opts.get_peer_id().map(|p| self.peer_of(&p)).unwrap_or(-1);
+                let (_, _, cond) = libp2p_swarm::verif::dial_opts_settings(&opts);
+                let cs = format!("{cond:?}");
+                if peer < 1 {
+                    self.evs.push(json!({"e": "pollbeh", "res": "dialother", "peer": peer, "cond": cs}));
+                    return true;
+                }
+                let p = peer as usize;
+                let connected = self.connected(p) > 0;
+                let dialing = !self.dials[p].is_empty();
+                let go = match cond {
+                    PeerCondition::Always => true,
+                    PeerCondition::Disconnected => !connected,
+                    PeerCondition::NotDialing => !dialing,
+                    PeerCondition::DisconnectedAndNotDialing => !connected && !dialing,
+                };
+                if go {
+                    self.dials[p].push_back(opts.connection_id());
+                    self.evs.push(json!({"e": "pollbeh", "res": "dial", "peer": peer, "cond": cs}));
+                } else {
+                    self.evs.push(json!({"e": "pollbeh", "res": "dialskip", "peer": peer, "cond": cs}));
+                    let e = DialError::DialPeerConditionFalse(cond);
+                    self.beh.on_swarm_event(FromSwarm::DialFailure(DialFailure { peer_id: Some(self.peers[p]), error: &e, connection_id: opts.connection_id() }));
+                }
+                true
+            }
+            Poll::Ready(_) => {
+                self.evs.push(json!({"e": "pollbeh", "res": "other", "peer": 0, "cond": ""}));
+                true
+            }
+        }
+    }
+
+    fn poll_handler(&mut self, ci: usize) -> bool {
+        let mut cx = self.det.cx();
+        let conn = self.conns[ci].as_mut().unwrap();
+        match conn.handler.poll(&mut cx) {
+            Poll::Pending => {
+                self.evs.push(json!({"e": "pollh", "c": ci + 1, "res": "pending", "protos": [], "to": 0}));
+                false
+            }
+            Poll::Ready(ConnectionHandlerEvent::OutboundSubstreamRequest { protocol }) => {
+                let to = protocol.timeout().as_millis() as u64;
+                let names: Vec<String> = protocol.upgrade().protocol_info().map(|p| p.as_ref().to_string()).collect();
+                let idx: Vec<i64> = names.iter().map(|n| pidx(n)).collect();
+                let first = names.first().and_then(|n| PROTOS.iter().find(|p| **p == n.as_str())).copied().unwrap_or("/c");
+                conn.outstanding.push_back(first);
+                self.evs.push(json!({"e": "pollh", "c": ci + 1, "res": "osr", "protos": idx, "to": to}));
+                true
+            }
+            Poll::Ready(_) => {
+                self.evs.push(json!({"e": "pollh", "c": ci + 1, "res": "other", "protos": [], "to": 0}));
+                true
+            }
+        }
+    }
+
+    /// poll all unresolved open_stream futures until nothing moves
+    fn settle(&mut self) {
+        for _ in 0..8 {
+            let before = self.det.wakes();
+            let mut any = false;
+            for i in 0..self.opens.len() {
+                let Some(mut f) = self.opens[i].fut.take() else { continue };
+                match self.det.poll(f.as_mut()) {
+                    Poll::Pending => self.opens[i].fut = Some(f),
+                    Poll::Ready(r) => {
+                        any = true;
+                        let ev = match r {
+                            Ok(mut s) => {
+                                let ser = read_serial(&self.det, &mut s);
+                                self.held.push(s);
+                                json!({"e": "res", "i": i + 1, "k": "ok", "ser": ser, "proto": -1, "iok": ""})
+                            }
+                            Err(stream::OpenStreamError::UnsupportedProtocol(p)) => json!({"e": "res", "i": i + 1, "k": "unsupported", "ser": 0, "proto": pidx(p.as_ref()), "iok": ""}),
+                            Err(stream::OpenStreamError::Io(e)) => json!({"e": "res", "i": i + 1, "k": "io", "ser": 0, "proto": -1, "iok": format!("{:?}", e.kind())}),
+                            Err(_) => json!({"e": "res", "i": i + 1, "k": "other", "ser": 0, "proto": -1, "iok": ""}),
+                        };
+                        self.evs.push(ev);
+                    }
+                }
+            }
+            if !any && self.det.wakes() == before {
+                break;
+            }
+        }
+    }
+
+    fn step(&mut self, op: &Value) {
+        let a = op["a"].as_str().unwrap_or("");
+        let p = op["p"].as_u64().unwrap_or(0) as usize % 3;
+        let peer = (op["peer"].as_u64().unwrap_or(1) as usize).clamp(1, NPEER);
+        match a {
+            "accept" => {
+                let r = self.ctl.accept(StreamProtocol::new(PROTOS[p]));
+                match r {
+                    Ok(inc) => {
+                        // an old handle that is still stored is NOT dropped here: AlreadyRegistered would have been returned
+                        if self.incs[p].is_some() {
+                            self.evs.push(json!({"e": "accept", "p": p, "res": "ok-while-live"}));
+                        } else {
+                            self.evs.push(json!({"e": "accept", "p": p, "res": "ok"}));
+                        }
+                        self.incs[p] = Some(inc);
+                    }
+                    Err(_) => self.evs.push(json!({"e": "accept", "p": p, "res": "already"})),
+                }
+            }
+            "dropinc" => {
+                if self.incs[p].take().is_some() {
+                    self.evs.push(json!({"e": "dropinc", "p": p}));
+                } else {
+                    self.evs.push(json!({"e": "skip"}));
+                }
+            }
+            "recv" => {
+                let Some(inc) = self.incs[p].as_mut() else {
+                    self.evs.push(json!({"e": "skip"}));
+                    return;
+                };
+                let mut cx = self.det.cx();
+                match Pin::new(inc).poll_next(&mut cx) {
+                    Poll::Pending => self.evs.push(json!({"e": "recv", "p": p, "res": "none", "peer": 0, "ser": 0})),
+                    Poll::Ready(None) => self.evs.push(json!({"e": "recv", "p": p, "res": "end", "peer": 0, "ser": 0})),
+                    Poll::Ready(Some((who, mut s))) => {
+                        let ser = read_serial(&self.det, &mut s);
+                        self.held.push(s);
+                        let who = self.peer_of(&who);
+                        self.evs.push(json!({"e": "recv", "p": p, "res": "some", "peer": who, "ser": ser}));
+                    }
+                }
+            }
+            "open" => {
+                let mut ctl = self.ctl.clone();
+                let target = self.peers[peer];
+                let proto = StreamProtocol::new(PROTOS[p]);
+                let fut: OpenFut = Box::pin(async move { ctl.open_stream(target, proto).await });
+                self.opens.push(OpenSlot { fut: Some(fut) });
+                self.evs.push(json!({"e": "open", "i": self.opens.len(), "peer": peer, "p": p}));
+            }
+            "cancel" => {
+                let live: Vec<usize> = (0..self.opens.len()).filter(|i| self.opens[*i].fut.is_some()).collect();
+                if live.is_empty() {
+                    self.evs.push(json!({"e": "skip"}));
+                    return;
+                }
+                let i = live[op["i"].as_u64().unwrap_or(0) as usize % live.len()];
+                self.opens[i].fut = None;
+                self.evs.push(json!({"e": "cancel", "i": i + 1}));
+            }
+            "pollbeh" => {
+                self.poll_beh();
+            }
+            "dialok" | "dialfail" => {
+                let Some(id) = self.dials[peer].pop_front() else {
+                    self.evs.push(json!({"e": "skip"}));
+                    return;
+                };
+                if a == "dialok" {
+                    if self.conns.len() >= 6 {
+                        // keep runs small: the attempt fails instead
+                        let e = DialError::Transport(vec![]);
+                        self.evs.push(json!({"e": "dialfail", "peer": peer, "k": "transport"}));
+                        self.beh.on_swarm_event(FromSwarm::DialFailure(DialFailure { peer_id: Some(self.peers[peer]), error: &e, connection_id: id }));
+                        return;
+                    }
+                    self.establish(peer, id, true);
+                } else {
+                    let k = op["k"].as_str().unwrap_or("transport");
+                    let (k, e) = match k {
+                        "denied" => ("denied", DialError::Denied { cause: ConnectionDenied::new(std::io::Error::other("scripted")) }),
+                        "noaddr" => ("noaddr", DialError::NoAddresses),
+                        "wrongpeer" => ("wrongpeer", DialError::WrongPeerId { obtained: self.peers[0], address: addr(peer, 0) }),
+                        "aborted" => ("aborted", DialError::Aborted),
+                        "local" => ("local", DialError::LocalPeerId { address: addr(peer, 0) }),
+                        _ => ("transport", DialError::Transport(vec![])),
+                    };
+                    self.evs.push(json!({"e": "dialfail", "peer": peer, "k": k}));
+                    self.beh.on_swarm_event(FromSwarm::DialFailure(DialFailure { peer_id: Some(self.peers[peer]), error: &e, connection_id: id }));
+                }
+            }
+            "inconn" => {
+                if self.conns.len() >= 6 {
+                    self.evs.push(json!({"e": "skip"}));
+                    return;
+                }
+                let id = ConnectionId::new_unchecked(7000 + self.next_cid);
+                self.next_cid += 1;
+                self.establish(peer, id, false);
+            }
+            "close" => {
+                let Some(ci) = self.pick_conn(op) else {
+                    self.evs.push(json!({"e": "skip"}));
+                    return;
+                };
+                let conn = self.conns[ci].take().unwrap();
+                let remaining = self.connected(conn.peer);
+                self.evs.push(json!({"e": "close", "c": ci + 1, "peer": conn.peer}));
+                self.beh.on_swarm_event(FromSwarm::ConnectionClosed(ConnectionClosed {
+                    peer_id: self.peers[conn.peer],
+                    connection_id: conn.id,
+                    endpoint: &conn.endpoint,
+                    cause: None,
+                    remaining_established: remaining,
+                }));
+                drop(conn);
+            }
+            "pollh" => {
+                let Some(ci) = self.pick_conn(op) else {
+                    self.evs.push(json!({"e": "skip"}));
+                    return;
+                };
+                self.poll_handler(ci);
+            }
+            "outok" | "outfail" => {
+                let Some(ci) = self.pick_conn(op) else {
+                    self.evs.push(json!({"e": "skip"}));
+                    return;
+                };
+                let Some(proto) = self.conns[ci].as_mut().unwrap().outstanding.pop_front() else {
+                    self.evs.push(json!({"e": "skip"}));
+                    return;
+                };
+                if a == "outok" {
+                    self.serial += 1;
+                    let s = mkstream(&self.det, proto, self.serial, true);
+                    self.evs.push(json!({"e": "outok", "c": ci + 1, "proto": pidx(proto), "ser": self.serial}));
+                    self.conns[ci].as_mut().unwrap().handler.on_connection_event(ConnectionEvent::FullyNegotiatedOutbound(FullyNegotiatedOutbound {
+                        protocol: (s, StreamProtocol::new(proto)),
+                        info: (),
+                    }));
+                } else {
+                    let (k, error) = match op["k"].as_str().unwrap_or("neg") {
+                        "io" => ("io", StreamUpgradeError::Io(std::io::Error::other("scripted"))),
+                        "timeout" => ("timeout", StreamUpgradeError::Timeout),
+                        _ => ("neg", StreamUpgradeError::NegotiationFailed),
+                    };
+                    self.evs.push(json!({"e": "outfail", "c": ci + 1, "proto": pidx(proto), "k": k}));
+                    self.conns[ci].as_mut().unwrap().handler.on_connection_event(ConnectionEvent::DialUpgradeError(DialUpgradeError { info: (), error }));
+                }
+            }
+            "inb" | "inb1" => {
+                let Some(ci) = self.pick_conn(op) else {
+                    self.evs.push(json!({"e": "skip"}));
+                    return;
+                };
+                let conn = self.conns[ci].as_mut().unwrap();
+                let lp = conn.handler.listen_protocol();
+                let mut offered: Vec<i64> = lp.upgrade().protocol_info().map(|x| pidx(x.as_ref())).collect();
+                offered.sort();
+                let acc = offered.contains(&(p as i64));
+                let cpeer = conn.peer;
+                if a == "inb1" {
+                    self.inb_pending.push(Some((ci, p, acc)));
+                    self.evs.push(json!({"e": "inb1", "c": ci + 1, "peer": cpeer, "p": p, "offered": offered, "acc": acc, "k": self.inb_pending.len()}));
+                    return;
+                }
+                let mut ser = 0;
+                if acc {
+                    self.serial += 1;
+                    ser = self.serial;
+                }
+                self.evs.push(json!({"e": "inb", "c": ci + 1, "peer": cpeer, "p": p, "offered": offered, "acc": acc, "ser": ser}));
+                if acc {
+                    let s = mkstream(&self.det, PROTOS[p], ser, false);
+                    self.conns[ci].as_mut().unwrap().handler.on_connection_event(ConnectionEvent::FullyNegotiatedInbound(FullyNegotiatedInbound {
+                        protocol: (s, StreamProtocol::new(PROTOS[p])),
+                        info: (),
+                    }));
+                }
+            }
+            "inb2" => {
+                let live: Vec<usize> = (0..self.inb_pending.len()).filter(|i| self.inb_pending[*i].is_some()).collect();
+                if live.is_empty() {
+                    self.evs.push(json!({"e": "skip"}));
+                    return;
+                }
+                let k = live[op["k"].as_u64().unwrap_or(0) as usize % live.len()];
+                let (ci, p, acc) = self.inb_pending[k].take().unwrap();
+                if !acc || self.conns[ci].is_none() {
+                    self.evs.push(json!({"e": "inb2", "k": k + 1, "c": ci + 1, "peer": 0, "p": p, "ser": 0, "gone": true}));
+                    return;
+                }
+                self.serial += 1;
+                let ser = self.serial;
+                let cpeer = self.conns[ci].as_ref().unwrap().peer;
+                self.evs.push(json!({"e": "inb2", "k": k + 1, "c": ci + 1, "peer": cpeer, "p": p, "ser": ser, "gone": false}));
+                let s = mkstream(&self.det, PROTOS[p], ser, false);
+                self.conns[ci].as_mut().unwrap().handler.on_connection_event(ConnectionEvent::FullyNegotiatedInbound(FullyNegotiatedInbound {
+                    protocol: (s, StreamProtocol::new(PROTOS[p])),
+                    info: (),
+                }));
+            }
+            _ => self.evs.push(json!({"e": "skip"})),
+        }
+    }
+
+    /// end of run: everything that can move without the environment does move
+    fn drain(&mut self) {
+        for _ in 0..20 {
+            let mut moved = false;
+            for _ in 0..10 {
+                if !self.poll_beh() {
+                    break;
+                }
+                moved = true;
+                self.settle();
+            }
+            for ci in self.live_conns() {
+                for _ in 0..10 {
+                    if !self.poll_handler(ci) {
+                        break;
+                    }
+                    moved = true;
+                    self.settle();
+                }
+            }
+            if !moved {
+                break;
+            }
+        }
+        self.evs.push(json!({"e": "end"}));
+    }
+}
+
+fn run(sched: &Value, peers: &[PeerId]) -> Vec<Value> {
+    let mut w = World::new(peers);
+    for op in sched["ops"].as_array().cloned().unwrap_or_default() {
+        let r = guard(|| {
+            w.step(&op);
+            w.settle();
+        });
+        if let Err(msg) = r {
+            w.evs.push(json!({"e": "panic", "msg": msg}));
+            return std::mem::take(&mut w.evs);
+        }
+    }
+    if let Err(msg) = guard(|| w.drain()) {
+        w.evs.push(json!({"e": "panic", "msg": msg}));
+    }
+    let evs = std::mem::take(&mut w.evs);
+    // streams were created with forgotten remote ends; dropping the world must not panic either
+    let _ = guard(move || drop(w));
+    evs
+}
+
+fn emit(out: &mut Out, sched: &Value, evs: Vec<Value>) {
+    out.reset(sched);
+    for e in evs {
+        out.ev(e);
+    }
+}
+
+fn letters() -> Vec<Value> {
+    vec![
+        json!({"a": "accept", "p": 0}),
+        json!({"a": "dropinc", "p": 0}),
+        json!({"a": "recv", "p": 0}),
+        json!({"a": "inconn", "peer": 1}),
+        json!({"a": "inb", "c": 0, "p": 0}),
+        json!({"a": "open", "peer": 1, "p": 0}),
+        json!({"a": "open", "peer": 2, "p": 1}),
+        json!({"a": "pollbeh"}),
+        json!({"a": "dialok", "peer": 1}),
+        json!({"a": "dialfail", "peer": 1, "k": "transport"}),
+        json!({"a": "pollh", "c": 0}),
+        json!({"a": "outok", "c": 0}),
+        json!({"a": "outfail", "c": 0, "k": "neg"}),
+        json!({"a": "close", "c": 0}),
+    ]
+}
+
+fn random_op(rng: &mut impl Rng) -> Value {
+    let peer = rng.gen_range(1..=NPEER);
+    let p = if rng.gen_bool(0.9) { rng.gen_range(0..2) } else { 2 };
+    match rng.gen_range(0..100) {
+        0..=7 => json!({"a": "accept", "p": p}),
+        8..=11 => json!({"a": "dropinc", "p": p}),
+        12..=19 => json!({"a": "recv", "p": p}),
+        20..=31 => json!({"a": "open", "peer": peer, "p": p}),
+        32..=33 => json!({"a": "cancel", "i": rng.gen_range(0..4)}),
+        34..=43 => json!({"a": "pollbeh"}),
+        44..=49 => json!({"a": "dialok", "peer": peer}),
+        50..=54 => json!({"a": "dialfail", "peer": peer, "k": (["transport", "denied", "noaddr", "wrongpeer", "aborted", "local"][rng.gen_range(0..6)])}),
+        55..=59 => json!({"a": "inconn", "peer": peer}),
+        60..=63 => json!({"a": "close", "c": rng.gen_range(0..4)}),
+        64..=75 => json!({"a": "pollh", "c": rng.gen_range(0..4)}),
+        76..=81 => json!({"a": "outok", "c": rng.gen_range(0..4)}),
+        82..=86 => json!({"a": "outfail", "c": rng.gen_range(0..4), "k": (["neg", "io", "timeout"][rng.gen_range(0..3)])}),
+        87..=93 => json!({"a": "inb", "c": rng.gen_range(0..4), "p": p}),
+        94..=96 => json!({"a": "inb1", "c": rng.gen_range(0..4), "p": p}),
+        _ => json!({"a": "inb2", "k": rng.gen_range(0..3)}),
+    }
+}
+
+fn main() {
+    vcommon::quiet_panics();
+    let a = Args::parse();
+    let peers: Vec<PeerId> = (0..=NPEER).map(|_| PeerId::random()).collect();
+    match a.mode.as_str() {
+        "exhaustive" => {
+            let len = a.num(0) as usize;
+            let mut out = Out::create(a.get(1));
+            let abc = letters();
+            let mut n = 0u64;
+            for l in 1..=len {
+                let mut idx = vec![0usize; l];
+                'seqs: loop {
+                    let ops: Vec<Value> = idx.iter().map(|i| abc[*i].clone()).collect();
+                    let sched = json!({"ops": ops});
+                    let evs = run(&sched, &peers);
+                    if !evs.iter().any(|e| e["e"] == "skip") {
+                        emit(&mut out, &sched, evs);
+                        n += 1;
+                    }
+                    let mut k = l;
+                    loop {
+                        if k == 0 {
+                            break 'seqs;
+                        }
+                        k -= 1;
+                        idx[k] += 1;
+                        if idx[k] < abc.len() {
+                            break;
+                        }
+                        idx[k] = 0;
+                    }
+                }
+            }
+            println!("runs={n} events={}", out.events);
+            out.finish();
+        }
+        "random" => {
+            let seed = a.num(0);
+            let runs = a.num(1);
+            let mut out = Out::create(a.get(2));
+            let mut rng = vcommon::rng(seed ^ 0x57e4a1);
+            for _ in 0..runs {
+                let len = rng.gen_range(6..45);
+                let ops: Vec<Value> = (0..len).map(|_| random_op(&mut rng)).collect();
+                let sched = json!({"ops": ops});
+                let evs = run(&sched, &peers);
+                emit(&mut out, &sched, evs);
+            }
+            println!("runs={runs} events={}", out.events);
+            out.finish();
+        }
+        "replay" => {
+            let scheds = vcommon::read_schedules(a.get(0));
+            let mut out = Out::create(a.get(1));
+            for s in &scheds {
+                let evs = run(s, &peers);
+                emit(&mut out, s, evs);
+            }
+            println!("runs={} events={}", scheds.len(), out.events);
+            out.finish();
+        }
+        m => {
+            eprintln!("unknown mode {m}");
+            std::process::exit(2)
+        }
+    }
+}
